@@ -4,6 +4,7 @@ particular to specify the length limits for field values and the characters allo
 format.
 """
 import decimal
+import re
 
 # Copyright (C) 2009-2021 Thomas Aglassinger
 #
@@ -48,6 +49,24 @@ DEFAULT_PRECISION = len(MAX_DECIMAL_TEXT.split(".")[1])
 #: Scale (total number of digits) to use for decimal numbers if no range is
 #: specified.
 DEFAULT_SCALE = len(MAX_DECIMAL_TEXT) - 1
+
+#: Regular expression matching either a quoted text (group 1) or an ellipsis
+#: character outside of any quoted text.
+_QUOTED_TEXT_OR_ELLIPSIS_REGEX = re.compile(
+    r"""("(?:\\.|[^"\\])*"|'(?:\\.|[^'\\])*')|""" + ELLIPSIS, re.DOTALL
+)
+
+
+def _tokenizable_description(description):
+    """
+    Same as ``description`` but with any :py:const:`ELLIPSIS` outside of
+    quoted text replaced by a colon (:). Starting with Python 3.12 the
+    tokenizer considers an ellipsis character to be a part of a name, so for
+    example ``1\u20265`` would result in a number token followed by a broken
+    name token ``\u20265`` instead of a number, an ellipsis and a number.
+    """
+    assert description is not None
+    return _QUOTED_TEXT_OR_ELLIPSIS_REGEX.sub(lambda match: match.group(1) or ":", description)
 
 
 def code_for_number_token(name, value, location):
@@ -211,7 +230,7 @@ class Range(object):
 
             name_for_code = "range"
             location = None  # TODO: Add location where range is declared.
-            tokens = _tools.tokenize_without_space(self._description)
+            tokens = _tools.tokenize_without_space(_tokenizable_description(self._description))
             end_reached = False
             while not end_reached:
                 lower = None
@@ -545,7 +564,7 @@ class DecimalRange(Range):
         else:
             self._description = description.replace("...", ELLIPSIS)
             self._items = []
-            tokens = _tools.tokenize_without_space(self._description)
+            tokens = _tools.tokenize_without_space(_tokenizable_description(self._description))
             end_reached = False
             max_digits_after_dot = 0
             max_digits_before_dot = 0
